@@ -54,7 +54,7 @@ func c11MY(v int) string {
 
 const c11Q = "2001-03-01 q\n    q:one  8 USD\n    q:two  -8 USD\n\n2001-03-02 typing\n    \n"
 
-var c11MemOps = []string{"open:M", "openother:M", "change:M", "save:M", "close:M", "open:X", "openother:X", "change:X", "save:X", "close:X", "open:Y", "openother:Y", "change:Y", "save:Y", "close:Y"}
+var c11MemOps = []string{"open:M", "openother:M", "change:M", "save:M", "close:M", "open:X", "openother:X", "change:X", "save:X", "close:X", "open:Y", "openother:Y", "change:Y", "save:Y", "close:Y", "ask:M"}
 
 func c11Labels(r wire.Reply) []string {
 	var v struct{ Items []struct{ Label string } }
@@ -131,6 +131,7 @@ func c11MemRun(c *core.Ctx, dir string, root bool, ops []string) (key string, ok
 	s := newSession()
 	disk := map[string]int{"M": 0, "X": 0, "Y": 0}
 	editor := map[string]int{"M": -1, "X": -1, "Y": -1}
+	asked := false
 	for _, op := range ops {
 		verb, f, _ := strings.Cut(op, ":")
 		u, p := uris[f], paths[f]
@@ -167,9 +168,25 @@ func c11MemRun(c *core.Ctx, dir string, root bool, ops []string) (key string, ok
 			}
 			editor[f] = -1
 			s.DidClose(u)
+			if f == "M" {
+				asked = false
+			}
+		case "ask":
+			// requests in the open root journal: whatever they leave behind in the
+			// server must not show later (once per session of M is enough)
+			if editor["M"] < 0 || asked {
+				return "", false
+			}
+			asked = true
+			mt := strings.Count(c11M(0), "\n") - 1
+			s.Call("textDocument/completion", wire.DocPos(uris["M"], mt, 4))
+			s.Call("textDocument/hover", wire.DocPos(uris["M"], 5, 6))
+			s.Call("textDocument/inlineCompletion", wire.DocPos(uris["M"], mt, 0))
+			s.Call("workspace/symbol", `{"query":"p"}`)
 		}
 	}
-	key = fmt.Sprintf("disk=%v editor=%v\n%s\n%s", disk, editor, s.Srv.VerifxDump(), s.Srv.VerifxCachesDump())
+	// "asked" is part of the key: a cache the dump does not know must not let the search merge the two
+	key = fmt.Sprintf("disk=%v editor=%v asked=%v\n%s\n%s", disk, editor, asked, s.Srv.VerifxDump(), s.Srv.VerifxCachesDump())
 	key = strings.ReplaceAll(key, dir, "")
 	got, _ := c11MemObserve(s, dir, editor["M"] >= 0, disk["M"])
 	// the fresh server: every open document is opened with its saved text and
@@ -263,7 +280,7 @@ func c11MembershipHistories(c *core.Ctx, dir string) {
 	if c.Thorough() {
 		depth = 9
 	}
-	c.Bound("membership histories", fmt.Sprintf("BFS depth %d over %d operations (open with the saved or with the other text / change / save / close, on the root journal M whose versions include X or not, and on X) x workspace root on/off; Q and M asked afterwards (diagnostics, completion, hover, references, workspace symbols) and compared with a fresh server in the same final state and with the names of the member files", depth, len(c11MemOps)))
+	c.Bound("membership histories", fmt.Sprintf("BFS depth %d over %d operations (open with the saved or with the other text / change / save / close / requests in M, on the root journal M whose versions include X or not, and on X) x workspace root on/off; Q and M asked afterwards (diagnostics, completion, hover, references, workspace symbols) and compared with a fresh server in the same final state and with the names of the member files", depth, len(c11MemOps)))
 	for ri, root := range []bool{false, true} {
 		if !c.MineKey(int64(200 + ri)) {
 			continue
